@@ -325,7 +325,7 @@ func runC06(cfg *vh.Config) error {
 	}
 
 	res.Notes = append(res.Notes, fmt.Sprintf("stage: after lex %s", time.Since(t0)))
-	// ---- query stream (implementation only for now: crash / deadline oracle)
+	// ---- query stream: crash / deadline oracle, and the query model on the same url.Values
 	nQuery := cfg.Scale(400, 30000)
 	for i := 0; i < nQuery; i++ {
 		t := vh.Pick(r, targets)
@@ -343,6 +343,9 @@ func runC06(cfg *vh.Config) error {
 		}
 		if o.Kind == "ok" {
 			res.Sample(map[string]any{"stream": "query", "query": q.Encode(), "outcome": "ok"}, 10)
+		}
+		if len(q) <= 4 && o.Kind != "timeout" && (cfg.Tier == "quick" || i%8 == 0) {
+			em.add(queryCase(t, q, o), "query", input, map[string]any{"kind": o.Kind, "err": o.Err, "panic": o.Panic})
 		}
 		em.caseNo++
 	}
